@@ -1,6 +1,6 @@
 (* C01 — value round trip: parsing what was dumped gives the value back. *)
 From Coq Require Import Lia.
-From VF Require Import Model.Writer Proofs.CodecCorrect Proofs.SizeProps Proofs.RoundTrip Proofs.ValueRoundTrip Proofs.ValueRoundTripDyn Gen.GeneratedOk.
+From VF Require Import Model.Writer Proofs.CodecCorrect Proofs.SizeProps Proofs.RoundTrip Proofs.ValueRoundTrip Proofs.ValueRoundTripDyn Proofs.AlignedSize Proofs.AlignedRoundTrip Proofs.BitsCorrect Proofs.BitRun Proofs.BitStruct Proofs.BitMixed Gen.GeneratedOk.
 Open Scope string_scope. Open Scope list_scope. Open Scope Z_scope.
 
 (* For every configuration with a proper byte order, every sequential type with fixed counts (`flat` and `rt_ty`: integers of every width
@@ -23,6 +23,34 @@ Theorem value_round_trip_dynamic : forall c, endian_ok (c_endian c) -> forall fu
   forall ctx v wpos bs, has_tyc c t ctx v -> write_ty c t v wpos = Ok bs ->
     forall pre rest, exists v', read_ty c fuel t (pre ++ bs ++ rest) (zlen pre) ctx = Ok (v', zlen pre + zlen bs) /\ strip v' = strip v.
 Proof. exact parse_dump_identity_dyn. Qed.
+(* ALIGNED mode: for fixed-size types built from scalars, fixed arrays and aligned structures of plain fields with power-of-two alignments and
+   at least one member (nested to any depth, arrays of them), dumped at a position that is a multiple of the type's alignment: parsing the dump
+   at a position that is a multiple of that alignment gives the value back and consumes exactly the dump.  The padding the writer inserts
+   between members and at the tail is exactly what the reader skips. *)
+Theorem value_round_trip_aligned : forall c, endian_ok (c_endian c) -> forall fuel t, aflat c t = true -> rt_ty c t = true -> nonempty_structs t = true ->
+  forall n, ty_size c t = Some n ->
+  forall v wpos bs, has_ty c t v -> (req c t | wpos) -> write_ty c t v wpos = Ok bs ->
+    forall pre rest ctx, (req c t | zlen pre) ->
+      exists v', read_ty c fuel t (pre ++ bs ++ rest) (zlen pre) ctx = Ok (v', zlen pre + zlen bs) /\ strip v' = strip v.
+Proof. exact parse_dump_identity_aligned. Qed.
+(* Structures that MIX plain members (of the classes above, including expression-count arrays and nested structures) with runs of bit fields over
+   unsigned storage units, in either byte order: the body is given as segments (`SPlain f` / `SRun k pk al run`; `fields_of` is the field list the
+   library sees).  Runs start at static offsets, fit their unit and are separated by at least one plain member (`segs_ok`); values are typed
+   with the expression context threaded through plain members and bit fields alike (`typed_segs`: bit-field values fit their widths).
+   Through the real layout, BitBuffer.write with its flushes at unit ends / before plain members / at the end, and the structure reader:
+   parsing the dump - anywhere in a stream - gives the values back and consumes exactly the dump. *)
+Theorem mixed_bit_field_structure_round_trip : forall c, endian_ok (c_endian c) -> forall fuel nm segs,
+  segs_ok c (Some 0) segs -> NoDup (map f_name (fields_of segs)) ->
+  Forall (plain_ok c (fun f => read_ty c fuel (f_ty f)) (fun f => write_ty c (f_ty f)) (fun f => has_tyc c (f_ty f))) segs ->
+  forall vals sizes wpos bs,
+    typed_segs (fun f => has_tyc c (f_ty f)) vals segs [] -> map fst vals = map f_name (fields_of segs) ->
+    write_ty c (TStruct nm (fields_of segs) false) (VStruct vals sizes) wpos = Ok bs ->
+    forall pre rest ctx, exists v',
+      read_ty c fuel (TStruct nm (fields_of segs) false) (pre ++ bs ++ rest) (zlen pre) ctx = Ok (v', zlen pre + zlen bs) /\ strip v' = strip (VStruct vals sizes).
+Proof. exact mixed_struct_round_trip. Qed.
+Theorem plain_members_of_the_earlier_classes_qualify : forall c, endian_ok (c_endian c) -> forall fuel f, flat (f_ty f) = true -> dyn_ty c (f_ty f) = true ->
+  plain_ok c (fun f => read_ty c fuel (f_ty f)) (fun f => write_ty c (f_ty f)) (fun f => has_tyc c (f_ty f)) (SPlain f).
+Proof. exact plain_ok_of_class. Qed.
 (* writing never alters a number: a value that does not fit the width is rejected, a value that fits decodes to itself *)
 Theorem out_of_range_is_rejected : forall e n signed v, fits n signed v = false -> int_to_bytes e n signed v = Err ERange.
 Proof. exact int_reject. Qed.
@@ -37,6 +65,8 @@ Proof. exact ileb_roundtrip. Qed.
 Print Assumptions value_round_trip.
 Print Assumptions entry_point_round_trip.
 Print Assumptions value_round_trip_dynamic.
+Print Assumptions value_round_trip_aligned.
+Print Assumptions mixed_bit_field_structure_round_trip.
 Print Assumptions out_of_range_is_rejected.
 
 (* non-vacuity *)
@@ -91,3 +121,29 @@ Example exd_run : exists bs, dumps ex_cfg exd_ty exd_val = Ok bs /\ zlen bs = 12
           (Ok (VStruct [("n", VInt 2); ("d", VList [VInt (-2); VInt 515]); ("k", VInt 1); ("s", VBytes [104; 105]);
                         ("r", VList [VStruct [("c", VInt 3); ("v", VList [VInt 7; VInt 8; VInt 9])] [("c", 1); ("v", 3)]])] [("n", 1); ("d", 4); ("k", 1); ("s", 2); ("r", 4)], 12)) = true.
 Proof. eexists. split; [vm_compute; reflexivity|]. split; vm_compute; reflexivity. Qed.
+
+(* non-vacuity of the aligned theorem: struct { uint8 a; uint32 b; struct { uint8 x; uint64 y; } in[2]; uint16 t; } aligned *)
+Definition exa_in := TStruct "i" [Fld "x" false u8 None None; Fld "y" false (TPrim (PInt 8 false true) 8) None None] true.
+Definition exa_ty := TStruct "m" [Fld "a" false u8 None None; Fld "b" false (TPrim (PInt 4 false true) 4) None None;
+                                  Fld "in" false (TArr exa_in (LFixed 2)) None None; Fld "t" false (TPrim (PInt 2 false true) 2) None None] true.
+Definition exa_val := VStruct [("a", VInt 1); ("b", VInt 2); ("in", VList [VStruct [("x", VInt 3); ("y", VInt 4)] []; VStruct [("x", VInt 5); ("y", VInt 6)] []]); ("t", VInt 7)] [].
+Example exa_class : aflat ex_cfg exa_ty = true /\ rt_ty ex_cfg exa_ty = true /\ nonempty_structs exa_ty = true /\ ty_size ex_cfg exa_ty = Some 48 /\ req ex_cfg exa_ty = 8.
+Proof. vm_compute. repeat split. Qed.
+Example exa_run : exists bs, dumps ex_cfg exa_ty exa_val = Ok bs /\ zlen bs = 48 /\
+  match read_top ex_cfg exa_ty ([9; 9; 9; 9; 9; 9; 9; 9] ++ bs ++ [1]) 8 with Ok (v, p) => p = 56 /\ strip v = strip exa_val | Err _ => False end.
+Proof. eexists. split; [vm_compute; reflexivity|]. split; [vm_compute; reflexivity|]. vm_compute. split; reflexivity. Qed.
+
+(* non-vacuity of the mixed theorem: uint8 n; uint16 a:3; uint16 b:9; uint8 t; uint32 c:12; uint32 e:20; uint8 d[n];  (big endian) *)
+Definition exm_segs := [SPlain (Fld "n" false u8 None None); SRun 2 true 2 [("a", 3); ("b", 9)];
+                        SPlain (Fld "t" false u8 None None); SRun 4 true 4 [("c", 12); ("e", 20)]; SPlain (Fld "d" false (TArr u8 (LExpr ["n"] false)) None None)].
+Definition exm_ty := TStruct "m" (fields_of exm_segs) false.
+Definition exm_val := VStruct [("n", VInt 2); ("a", VInt 5); ("b", VInt 300); ("t", VInt 9); ("c", VInt 4095); ("e", VInt 70000); ("d", VList [VInt 7; VInt 8])] [].
+Example exm_ok : segs_ok ex_cfg (Some 0) exm_segs.
+Proof.
+  cbn. repeat split; try discriminate; try lia; repeat constructor; try lia.
+  eexists. split; [reflexivity|]. cbn. repeat split; try discriminate; try lia; repeat constructor; try lia.
+  eexists. split; [reflexivity|]. cbn. repeat split; try discriminate; try lia; repeat constructor; try lia.
+Qed.
+Example exm_run : exists bs, dumps ex_cfg exm_ty exm_val = Ok bs /\ zlen bs = 10 /\
+  match read_top ex_cfg exm_ty ([9] ++ bs ++ [1; 2]) 1 with Ok (v, p) => p = 11 /\ strip v = strip exm_val | Err _ => False end.
+Proof. eexists. split; [vm_compute; reflexivity|]. split; [vm_compute; reflexivity|]. vm_compute. split; reflexivity. Qed.
